@@ -129,8 +129,13 @@ def gen_program(rnd, length):
                 op["b"] = {"t": "num", "x": num(rnd, "id")}
         elif r < 0.91:
             src = rnd.choice(bound)
-            u = rnd.choice(["neg", "pos", "copy", "trans", "ctrans", "real", "imag", "abs"])
-            if u == "abs":
+            u = rnd.choice(["neg", "pos", "copy", "trans", "ctrans", "real", "imag", "abs", "abs"])
+            if u == "abs" and rnd.random() < 0.5:
+                # one-argument forms of the elementwise functions: mul(A), mul([A]), max([A]), min((A,)) are copies of A (new objects)
+                op = {"k": "ew1", "f": rnd.choice(["mul", "mul", "max", "min"]), "form": rnd.choice(["plain", "list"]), "src": src, "dst": rnd.choice(NAMES)}
+                if op["f"] != "mul":
+                    op["form"] = "list"
+            elif u == "abs":
                 op = {"k": "abs", "src": src, "dst": rnd.choice(NAMES)}
             else:
                 op = {"k": "unary", "u": u, "src": src, "dst": rnd.choice(NAMES)}
@@ -306,6 +311,10 @@ def run_program(prog):
                 env[op["dst"]] = env[op["src"]]
             elif k == "abs":
                 res = abs(env[op["src"]])
+            elif k == "ew1":
+                import cvxopt
+                A = env[op["src"]]
+                res = getattr(cvxopt, op["f"])(A if op["form"] == "plain" else [A])
             elif k in ("max1", "min1"):
                 res = (max if k == "max1" else min)(env[op["src"]])
             elif k == "bool":
